@@ -156,6 +156,14 @@ func genValue(r *rand.Rand, limit int, big bool) string {
 		l = r.Intn(12)
 	}
 	c := "abcxyz"[r.Intn(6)]
+	// multi-byte text now and then: sizes are counted in bytes, not in characters
+	if l >= 2 && l < 40 && r.Intn(5) == 0 {
+		b := []byte(strings.Repeat("é", l/2))
+		if l%2 == 1 {
+			b = append(b, c)
+		}
+		return string(b)
+	}
 	// multi-line values now and then
 	if l > 3 && l < 40 && r.Intn(4) == 0 {
 		b := bytes.Repeat([]byte{c}, l)
